@@ -979,7 +979,7 @@ Error query_rw_info(Arch arch, const BaseInst& inst, const Operand_* operands, s
       rm_ops_mask &= ~uint32_t(0x1);
     }
 
-    if (rm_ops_mask && !inst.has_option(InstOptions::kX86_ER)) {
+    if (rm_ops_mask && !inst.has_option(InstOptions::kX86_ER | InstOptions::kX86_SAE)) {
       Support::BitWordIterator<uint32_t> it(rm_ops_mask);
       do {
         i = it.next();
